@@ -4,7 +4,7 @@ from __future__ import annotations
 import itertools
 
 from ..core import AnalysisError
-from ..loadmodel import judge, run_load, run_loads
+from ..loadmodel import judge, run_load, run_load_with_fault, run_loads
 
 _CACHE = {}
 WHERE = "ceos_alos2/array.py:Array.__getitem__"
@@ -84,6 +84,50 @@ def load_rules(chk, repo, rule, keys, text, thorough=False):
             chk.ok(rule, WHERE, "model load")
     elif undecided:
         chk.note(f"{rule}: {len(undecided)} model loads could not be evaluated ({undecided[0][3][:100]})")
+
+
+FAULT_LOADS = [(9, 3, (slice(None), slice(None))), (9, 1, (slice(None), slice(None))), (9, 2, (slice(1, 8), slice(None))), (9, 4, (slice(None, None, 2), slice(None))), (9, 1024, (slice(None), slice(None))),
+               (5, 2, ([0, 2, 4], slice(None)))]
+
+
+def fault_rules(chk, repo, rule):
+    """a pixel load during which one request fails with a connection reset (each request of the load in turn): the load either raises
+    that error or - when the code retries - returns exactly the selected lines; it never returns something else"""
+    chk.rule(rule, "a load interrupted by one failing request (every request in turn) raises or returns exactly the selected lines - for every records_per_chunk", 10)
+    undecided, failed, n_ok = [], [], 0
+    for n, rpc, ix in FAULT_LOADS:
+        clean, ranges, content = run_load(repo, n, 8, rpc, ix)
+        if clean.outcome != "returned":
+            undecided.append((n, rpc, ix, "?", clean.outcome))
+            continue
+        n_reads = len([e for e in clean.trace.events if e[0] == "read"])
+        for at in range(n_reads):
+            ld, ranges, content = run_load_with_fault(repo, n, 8, rpc, ix, at)
+            sit = f"selection {ix!r} of a {n}-line image at records_per_chunk={rpc}, request {at + 1} of {n_reads} fails once with a connection reset"
+            if ld.outcome.startswith("undecided") or ld.outcome.startswith("nonterminating"):
+                undecided.append((n, rpc, ix, at, ld.outcome))
+                continue
+            if not ld.fault.get("fired"):
+                undecided.append((n, rpc, ix, at, "the failing request was never issued"))
+                continue
+            if ld.outcome.startswith("raised"):
+                n_ok += 1
+                continue
+            res = [r for r in judge(ld, ranges, content, n, rpc, ix) if r[0] in ("rows", "axis")]
+            bad = [r for r in res if not r[1]]
+            if bad:
+                failed.append(f"{sit}: the load returns, but {bad[0][3]}")
+            else:
+                n_ok += 1
+    for m in failed[:1]:
+        chk.fail(rule, WHERE, m + (f" (and {len(failed) - 1} more interrupted loads)" if len(failed) > 1 else ""), key="load:interrupted")
+    if undecided and not failed:
+        n, rpc, ix, at, why = undecided[0]
+        raise AnalysisError(f"{WHERE}: an interrupted load cannot be evaluated for {len(undecided)} cases (e.g. {ix!r} on {n} lines, records_per_chunk={rpc}, request {at}: {why[:140]})")
+    if not failed:
+        for _ in range(n_ok):
+            chk.ok(rule, WHERE, "interrupted model load")
+        chk.samples.append({"rule": rule, "where": WHERE, "obligation": {"interrupted loads": n_ok, "selections": len(FAULT_LOADS)}})
 
 
 WRAPPER_KEYS = [
